@@ -78,6 +78,15 @@ def handle : List String → String
       let tp := tempoOk play (actStartLB play t oa) tr
       if b && l && tp then "ok" else s!"FAIL barrier={b} lineOrder={l} tempo={tp}"
     | _, _, _, _ => "bad-op"
+  -- the tempo inequality against act starts recorded by the program itself: `tempook <play> <actStarts> <records>`
+  | ["tempook", pl, starts, recs] =>
+    match parsePlay pl, (commaList starts).mapM String.toNat?, (commaList recs).mapM parseRec with
+    | some play, some st, some tr =>
+      if tempoOk play (fun ao => st.getD ao 0) tr then "ok"
+      else
+        let bad := tr.filter fun r => !(tempoOk play (fun ao => st.getD ao 0) [r])
+        "FAIL ahead-of-tempo " ++ showList (bad.map fun r => showPos r.pos)
+    | _, _, _ => "bad-op"
   | _ => "bad-op"
 
 end Shk.Drv.C04
